@@ -18,6 +18,9 @@ def sh(cmd, cwd=None, env=None, timeout=3600):
     return p.returncode, p.stdout + p.stderr
 
 
+VERIF = '/verif'      # replaced by a snapshot in main(): the checks then do not see edits made to /verif while the matrix runs
+
+
 def one(sid):
     d = os.path.join('/verif/seeded', sid)
     meta = json.load(open(os.path.join(d, 'meta.json')))
@@ -36,7 +39,7 @@ def one(sid):
             return sid, {'error': 'patch does not apply: ' + out[-300:]}
         for p in props:
             t0 = time.time()
-            rc, out = sh('./check %s --tier quick' % p, cwd='/verif', env=dict(ENV, VERIF_REPO=wt))
+            rc, out = sh('./check %s --tier quick' % p, cwd=VERIF, env=dict(ENV, VERIF_REPO=wt))
             what = [l.strip() for l in out.splitlines() if l.startswith('  what:')]
             kind = re.search(r'"kind": "([^"]+)"', what[0]).group(1) if what else ''
             res[p] = {'exit': rc, 'wall_s': round(time.time() - t0), 'kind': kind}
@@ -53,6 +56,10 @@ def main():
     if args and args[0] == '-j':
         j = int(args[1])
         args = args[2:]
+    global VERIF
+    snap = '/tmp/mx/verif-snap-%d' % os.getpid()
+    sh('mkdir -p /tmp/mx && rsync -a --delete --exclude .git --exclude .work --exclude replays --exclude seeded /verif/ %s/' % snap)
+    VERIF = snap
     ids = args or sorted(x for x in os.listdir('/verif/seeded') if os.path.isdir(os.path.join('/verif/seeded', x)))
     out_path = os.environ.get('MATRIX_OUT', '/verif/seeded/MATRIX.json')
     matrix = json.load(open(out_path)) if os.path.exists(out_path) and args else {}
@@ -63,6 +70,7 @@ def main():
             print(sid, 'detected_by=%s' % det, {p: (r.get('exit'), r.get('kind')) for p, r in res.items() if isinstance(r, dict)} if 'error' not in res else res, flush=True)
             json.dump(matrix, open(out_path, 'w'), indent=1, sort_keys=True)
     sh('git -C /repo worktree prune')
+    sh('rm -rf %s' % snap)
     missed = [s for s, r in matrix.items() if 'neutralised' not in r and not any(isinstance(x, dict) and x.get('exit') == 1 for x in r.values())]
     print('TOTAL %d changes, %d detected, missed: %s' % (len(matrix), len(matrix) - len(missed), missed))
 
